@@ -29,6 +29,9 @@ pub(crate) struct DespawnAccessTracker
 
 impl DespawnAccessTracker
 {
+    #[cfg(ukoehb_bevy_cobweb_verif)]
+    pub(crate) fn verif_state(&self) -> (usize, bool) { (self.prepared.len(), self.currently_reacting) }
+
     /// Caches metadata for an entity reaction.
     pub(crate) fn prepare(&mut self, reactor: SystemCommand, source: Entity, handle: ReactorHandle)
     {
